@@ -1,3 +1,10 @@
+//! vf-eng-a: engine-level checks C01 (deterministic execution) and C02 (failed / rejected / aborted
+//! transactions change nothing but fees), plus the reusable typed manifest generator `mgen` (R7).
+pub mod c01;
+pub mod c02;
+pub mod exec;
+pub mod mgen;
+
 pub fn checks() -> Vec<vf_core::Check> {
-    vec![]
+    vec![c01::check(), c02::check()]
 }
